@@ -27,9 +27,10 @@
 (*   Spawners    objects of kind "spawner" exist: their finaliser allocates *)
 (*               a fresh managed object (alloc_by -> GC_Set in the middle   *)
 (*               of phase 2, or during teardown)                            *)
-(*   NestedSweep FALSE = GC_Set does not start a collection while a sweep   *)
-(*               is going through its pending list (fix: f5b06e1); TRUE =   *)
-(*               as found: the nested sweep takes the pending list over     *)
+(*   NestedSweep FALSE = a sweep started from inside a sweep works on a     *)
+(*               list of its own and the enclosing sweep keeps its list     *)
+(*               (fix: commits); TRUE = as found: the nested sweep takes    *)
+(*               the pending list over                                      *)
 (*   TeardownLoop TRUE = GC_Del sweeps until nothing collectable is left;   *)
 (*               FALSE = as found: one sweep                                *)
 (***************************************************************************)
